@@ -171,7 +171,7 @@ def judge(res, n, js, style, r, d=None, req=None):
 def shard(shard_no, nshards, seed, tier, extra):
     res = common.Result()
     rng = common.rng_for(seed, "c14", shard_no)
-    n_cases = 1500 if tier == "quick" else 60000
+    n_cases = 1500 if tier == "quick" else 150000
     d = common.Driver("rel", shim=True)
     for i in range(n_cases):
         n, js, style = gen_set(rng)
